@@ -132,7 +132,10 @@ def run(ck):
                 v = rng.randint(-9, 9)
                 before = dump(r)
                 try:
-                    r._add_data(arr(v), resolution=resarg, dtype=name, tag=tag)
+                    a_in = arr(v)
+                    r._add_data(a_in, resolution=resarg, dtype=name, tag=tag)
+                    if h % 3 == 1:
+                        a_in[...] = 12345.0          # the caller goes on using its array: what was added is what it held at the time
                     out = "ok"
                     naccept += 1
                     accepted.append((lev if resarg is not None else cur, name, tag, v))
